@@ -390,3 +390,78 @@ func TestD14_ExactInputLosesToSameNameChain(t *testing.T) {
 		}
 	}
 }
+
+// D15 (C01, C06): graph vertices were identified by the formatted string
+// "name/type/subtype", so two different labels could be the same vertex: the
+// parameter named "a/string" (subtype "y") received the value supplied under
+// the name "a" (subtype "string/y"); with different types Call panicked in
+// reflect.Set.
+func TestD15_VertexIDCollision(t *testing.T) {
+	var got string
+	ran := false
+	target := argmapper.MustFunc(argmapper.NewFunc(func(in struct {
+		argmapper.Struct
+		X string `argmapper:"a/string,subtype=y"`
+	}) {
+		ran = true
+		got = in.X
+	}))
+	res, p := call(target, argmapper.NamedSubtype("a", "WRONG", "string/y"))
+	if p != nil {
+		t.Fatalf("panic: %v", p)
+	}
+	if ran {
+		t.Fatalf("parameter named \"a/string\" (subtype y) received %q, which was supplied under the name \"a\" (subtype string/y)", got)
+	}
+	if res.Err() == nil {
+		t.Fatalf("expected an unsatisfied-argument error")
+	}
+	// different types: used to panic "reflect.Set: value of type int is not assignable to type string"
+	t2 := argmapper.MustFunc(argmapper.NewFunc(func(in struct {
+		argmapper.Struct
+		X string `argmapper:"a/int,subtype=y"`
+	}) {
+	}))
+	res, p = call(t2, argmapper.NamedSubtype("a", 5, "string/y"))
+	if p != nil {
+		t.Fatalf("panic: %v", p)
+	}
+	if res.Err() == nil {
+		t.Fatalf("expected an unsatisfied-argument error")
+	}
+}
+
+// D16 (C06): Redefine panicked (reflect.StructOf: invalid name) when a named
+// input it needs has a name that is not a Go identifier (declared via tag).
+func TestD16_RedefineNonIdentifierName(t *testing.T) {
+	target := argmapper.MustFunc(argmapper.NewFunc(func(in struct {
+		argmapper.Struct
+		X string `argmapper:"my-value"`
+		Y int    `argmapper:"9lives"`
+	}) string {
+		return fmt.Sprint(in.X, in.Y)
+	}))
+	var rf *argmapper.Func
+	var err error
+	func() {
+		defer func() {
+			if p := recover(); p != nil {
+				t.Fatalf("Redefine panicked: %v", p)
+			}
+		}()
+		rf, err = target.Redefine(quiet())
+	}()
+	if err != nil {
+		t.Fatalf("Redefine: %v", err)
+	}
+	res, p := call(rf, argmapper.Named("my-value", "v"), argmapper.Named("9lives", 9))
+	if p != nil {
+		t.Fatalf("panic: %v", p)
+	}
+	if res.Err() != nil {
+		t.Fatalf("calling the redefined function: %v", res.Err())
+	}
+	if res.Out(0).(string) != "v 9" && res.Out(0).(string) != "v9" {
+		t.Fatalf("got %q", res.Out(0))
+	}
+}
